@@ -87,6 +87,7 @@ type c12Item struct {
 	BErr   bool       `json:"berr"`   // a pipeline call containing it fails as a whole
 	UErr   bool       `json:"uerr"`   // the upkeep state updater returns an error for it
 	FeedIv int64      `json:"feedIv"` // retry flow: interval of the feeding Enqueue
+	TRes   *c12Res    `json:"tres"`   // deadline mode: the answer when the pipeline runs out of time on this payload
 }
 type c12Probe struct {
 	Kind  string `json:"kind"` // "abs": D ns after the previous step; "bound": at enqueue J's interval boundary + Delta
@@ -106,12 +107,15 @@ type c12Op struct {
 	N   int     `json:"n"`
 }
 type c12Input struct {
-	Kind     string     `json:"kind"` // "pipe" | "queue" | "plugin" | "stress" (the last two: c12_plugin_test.go)
-	Flow     string     `json:"flow,omitempty"`
-	Items    []c12Item  `json:"items,omitempty"`
-	Workers  int        `json:"workers,omitempty"`
-	RevBatch bool       `json:"revBatch,omitempty"` // the pipeline answers each call in reverse payload order
-	RunFor   int64      `json:"runFor,omitempty"`   // virtual ns the flows run
+	Kind     string    `json:"kind"` // "pipe" | "queue" | "plugin" | "stress" (the last two: c12_plugin_test.go)
+	Flow     string    `json:"flow,omitempty"`
+	Items    []c12Item `json:"items,omitempty"`
+	Workers  int       `json:"workers,omitempty"`
+	RevBatch bool      `json:"revBatch,omitempty"` // the pipeline answers each call in reverse payload order
+	// Deadline: the pipeline honours the caller's DEADLINE: when it expires, the call returns (without error) what it
+	// finished and reports every payload it could not finish as that payload's `tres` (a retryable failure)
+	Deadline bool       `json:"deadline,omitempty"`
+	RunFor   int64      `json:"runFor,omitempty"` // virtual ns the flows run
 	Probes   []c12Probe `json:"probes,omitempty"`
 	Ops      []c12Op    `json:"ops,omitempty"`
 	// plugin cases
@@ -120,6 +124,7 @@ type c12Input struct {
 	RetryTick int64      `json:"retryTick,omitempty"` // flows.RetryCheckInterval (ns), from the repository's constant
 	// stress cases
 	Stress *c12StressIn `json:"stress,omitempty"`
+	Fair   *c12FairIn   `json:"fair,omitempty"`
 }
 
 type c12QEv struct {
@@ -147,6 +152,7 @@ type c12Asked struct {
 	Ix  []int `json:"ix"`
 	Rev bool  `json:"rev"`
 	Err bool  `json:"err"`
+	TO  []int `json:"to"` // input items of this call that were answered with their `tres` (deadline expired)
 }
 type c12Impl struct {
 	Runs   []c12RunRec   `json:"runs"`
@@ -160,6 +166,7 @@ type c12Impl struct {
 	Note   string        `json:"note,omitempty"`
 	Plugin *c12PluginOut `json:"plugin,omitempty"`
 	Stress *c12StressOut `json:"stress,omitempty"`
+	Fair   *c12FairOut   `json:"fair,omitempty"`
 }
 
 // ---------------------------------------------------------------- recording decorators and fakes
@@ -304,6 +311,7 @@ type c12Pipeline struct {
 	items map[string]*c12Item
 	idx   map[string]int
 	rev   bool
+	dl    bool
 	asked []c12Asked
 }
 
@@ -336,17 +344,29 @@ func (p *c12Pipeline) CheckUpkeeps(ctx context.Context, ps ...ocr2keepers.Upkeep
 	}
 	i := p.idx[c12Key(ps[0].WorkID, ps[0].Trigger)]
 	lat += time.Duration(i*i*7+i*13+1) * time.Nanosecond // distinct completion instants
+	began := time.Now()
+	timedOut := []int{}
 	select {
 	case <-time.After(lat):
 	case <-ctx.Done():
-		return nil, ctx.Err()
+		if !p.dl || !errors.Is(ctx.Err(), context.DeadlineExceeded) {
+			return nil, ctx.Err()
+		}
+		spent := time.Since(began)
+		for k, pl := range ps {
+			it := p.items[c12Key(pl.WorkID, pl.Trigger)]
+			if time.Duration(it.LatMs)*time.Millisecond > spent && it.TRes != nil {
+				out[k] = fromC12Res(*it.TRes)
+				timedOut = append(timedOut, p.idx[c12Key(pl.WorkID, pl.Trigger)])
+			}
+		}
 	}
 	if p.rev {
 		for a, b := 0, len(out)-1; a < b; a, b = a+1, b-1 {
 			out[a], out[b] = out[b], out[a]
 		}
 	}
-	rec := c12Asked{Ix: make([]int, 0, len(ps)), Rev: p.rev, Err: fail}
+	rec := c12Asked{Ix: make([]int, 0, len(ps)), Rev: p.rev, Err: fail, TO: timedOut}
 	for _, pl := range ps {
 		rec.Ix = append(rec.Ix, p.idx[c12Key(pl.WorkID, pl.Trigger)])
 	}
@@ -396,6 +416,8 @@ func c12Run(t *testing.T, in c12Input) c12Impl {
 		return c12RunPlugin(t, in)
 	case "stress":
 		return c12RunStress(t, in)
+	case "fair":
+		return c12RunFair(t, in)
 	case "queue":
 		return c12RunQueue(t, in)
 	default:
@@ -423,7 +445,7 @@ func c12RunPipe(t *testing.T, in c12Input) c12Impl {
 	ctx, cancel := context.WithCancel(context.Background())
 	defer cancel()
 
-	pipe := &c12Pipeline{items: map[string]*c12Item{}, idx: map[string]int{}, rev: in.RevBatch}
+	pipe := &c12Pipeline{items: map[string]*c12Item{}, idx: map[string]int{}, rev: in.RevBatch, dl: in.Deadline}
 	coord := c12Coord{drop: map[string]bool{}}
 	upd := &c12Updater{fail: map[string]bool{}}
 	var payloads []ocr2keepers.UpkeepPayload
@@ -589,6 +611,10 @@ func c12RunPipe(t *testing.T, in c12Input) c12Impl {
 
 // ---------------------------------------------------------------- generators
 
+// c12QueueIvs: as c12CustomIvs plus an hour and a century (queue histories only: probes never wait for these)
+var c12QueueIvs = []int64{1, int64(time.Second), int64(7 * time.Second), int64(30*time.Second) - 1, int64(30 * time.Second), int64(45 * time.Second), -5,
+	0, int64(time.Hour), int64(100 * 365 * 24 * time.Hour), -1 << 63}
+
 var c12CustomIvs = []int64{1, int64(time.Second), int64(7 * time.Second), int64(30*time.Second) - 1, int64(30 * time.Second), int64(45 * time.Second), -5}
 
 func c12GenPayload(r *Rng, logType bool, block uint64) ocr2keepers.UpkeepPayload {
@@ -602,11 +628,18 @@ func c12GenRes(r *Rng, p ocr2keepers.UpkeepPayload, class int) ocr2keepers.Check
 	res := genResult(r, p.UpkeepID, uint64(p.Trigger.BlockNumber))
 	res.Trigger = p.Trigger
 	res.WorkID = p.WorkID
+	if r.Chance(12) {
+		// the interval is meaningful for retryable failures only; any result may carry one
+		res.RetryInterval = time.Duration(c12CustomIvs[r.Intn(len(c12CustomIvs))])
+	}
 	switch class {
-	case 0: // eligible success
-	case 1: // ineligible success
+	case 0: // eligible success; the ineligibility reason is informational and may be a stale non-zero value
+		if r.Chance(25) {
+			res.IneligibilityReason = uint8(r.Range(1, 255))
+		}
+	case 1: // ineligible success (with or without a reason)
 		res.Eligible = false
-		res.IneligibilityReason = uint8(r.Range(1, 9))
+		res.IneligibilityReason = uint8(r.Range(0, 9))
 		res.PerformData = nil
 	case 2: // retryable failure
 		res.PipelineExecutionState = uint8(r.Range(1, 9))
@@ -712,6 +745,24 @@ func c12GenPipe(r *Rng) c12Input {
 		}
 		in.Items = append(in.Items, it)
 	}
+	// some runs reach the observer's own time limit: checks that take about / exactly / longer than it, under a
+	// pipeline that turns the expired deadline into per-payload retryable failures
+	slow := in.Flow != "retry" && r.Chance(9)
+	if slow {
+		in.Deadline = true
+		lim := int(flows.ObservationProcessLimit / time.Millisecond)
+		for i := range in.Items {
+			it := &in.Items[i]
+			p := fromC12Payload(it.P)
+			tr := c12GenRes(r, p, 2)
+			tr.PipelineExecutionState = 10
+			tres := toC12Res(tr)
+			it.TRes = &tres
+			if r.Chance(40) {
+				it.LatMs = []int{lim - 1, lim, lim, lim + 1, lim + 5000, 3 * lim}[r.Intn(6)]
+			}
+		}
+	}
 	// how long the flows run: first tick + processing (≤ 300/10 calls × 0.4 s on one worker) + later ticks
 	in.RunFor = int64(17 * time.Second)
 	switch in.Flow {
@@ -721,6 +772,9 @@ func c12GenPipe(r *Rng) c12Input {
 		in.RunFor = int64([]time.Duration{9 * time.Second, 14 * time.Second, 22 * time.Second, 41 * time.Second}[r.Intn(4)])
 	case "recFinal", "condFinal":
 		in.RunFor = int64(time.Duration(17+n/50) * time.Second)
+	}
+	if slow {
+		in.RunFor += int64(flows.ObservationProcessLimit) + int64(time.Second)
 	}
 	// probes of the retry queue afterwards
 	np := r.Range(0, 4)
@@ -743,8 +797,10 @@ func c12GenQueue(r *Rng) c12Input {
 	in := c12Input{Kind: "queue"}
 	nw := r.Range(1, 6)
 	base := make([]ocr2keepers.UpkeepPayload, nw)
+	// check blocks also at and across 2^31, 2^32, 2^53, 2^63 and at the top of uint64
+	lo := []uint64{100, 100, 100, 1<<31 - 3, 1<<32 - 3, 1<<53 - 3, 1<<63 - 3, ^uint64(0) - 15}[r.Intn(8)]
 	for i := range base {
-		base[i] = c12GenPayload(r, r.Bool(), uint64(r.Range(100, 110)))
+		base[i] = c12GenPayload(r, r.Bool(), lo+uint64(r.Range(0, 10)))
 	}
 	type enq struct {
 		t, iv int64
@@ -763,7 +819,7 @@ func c12GenQueue(r *Rng) c12Input {
 			e := enqs[r.Intn(len(enqs))]
 			if long && r.Chance(40) {
 				target = e.first + exp + int64(r.Range(-1, 2))
-			} else {
+			} else if e.iv <= 2*exp {
 				target = e.t + e.iv + int64(r.Range(-1, 2))
 			}
 		}
@@ -800,7 +856,7 @@ func c12GenQueue(r *Rng) c12Input {
 			}
 			iv := int64(0)
 			if r.Chance(50) {
-				iv = c12CustomIvs[r.Intn(len(c12CustomIvs))]
+				iv = c12QueueIvs[r.Intn(len(c12QueueIvs))]
 			}
 			eff := iv
 			if eff <= 0 {
